@@ -434,6 +434,13 @@ func c09Prefix(r *Run, sc c09Scenario, n int, failWrite bool, ev c09ErrVal) (int
 		r.Violate(scen+".setup", "history", "calls on a healthy connection did not reach their handlers", in, c09Describe(calls), goroutineDump())
 		return 0, false
 	}
+	// in a third of the cases the application has already called Close on the connection (which
+	// announces the connection's end to the stats handlers; the calls in flight are still in flight)
+	if closedFirst := n >= 0 && (n+sc.Unary+len(sc.Streams))%3 == 1; closedFirst {
+		in["closedBeforeFailure"] = true
+		rig.CC.Close()
+		r.Count("c09.prefix.closed_first")
+	}
 	var concurrent []*c09Call
 	if sc.Racers > 0 {
 		concurrent = append(concurrent, c09StartUnary(rig, sc.Name+"/at-failure", atFail),
